@@ -1,6 +1,8 @@
 #!/bin/bash
 # run_seed.sh <Cnn> <patch.diff> [checks...] : run checks against a scratch copy of /repo with the patch applied
 id=$1; patch=$2; shift 2; checks=${@:-$id}
+# one mutation run at a time: the scratch copy and the working files of bin/check are shared
+exec 9>/tmp/run_seed.lock; flock 9
 rsync -a --delete --exclude target --exclude .git /repo/ /tmp/mut/repo/ || exit 2
 (cd /tmp/mut/repo && patch -p1 -s < $patch) || { echo "patch failed"; exit 2; }
 cd /verif
